@@ -125,8 +125,10 @@ def run(ctx, scratch):
                     # once per entry point: an UNWEIGHTED graph with a self-loop (where bool, int and float entries of equal value
                     # part ways in code that adds or counts entries, e.g. add_self_loops: seed C01_7) - not left to the random stream
                     coo = [[e[0], e[1], 1] for e in spec['coo']]
-                    if not any(e[0] == e[1] for e in coo):
-                        coo.append([0, 0, 1])
+                    have = {e[0] for e in coo if e[0] == e[1]}
+                    for v_ in range(min(nr, 3)):          # self-loops on the first three nodes (one node may carry null features)
+                        if v_ not in have:
+                            coo.append([v_, v_, 1])
                     spec = dict(spec, coo=sorted(coo), dtype='int')
                     fam += '+unit_loop'
                     weighted = False
